@@ -55,6 +55,12 @@ CLAIMED["C04"] = dict(
     note=TB_COMMON + "Independence of the spelling rests on sympy's expand() producing a sum of monomial terms with like terms combined (contract, validated per case); the theorems start from the expanded form.",
     ref="DESIGN.md 4 C04")
 
+CLAIMED["C01"] = dict(
+    technique="Lean 4 / Mathlib theorems about exp(h*A) over the reals (identity, derivative, semigroup, uniqueness, component-wise exponential) tied to an executable model of the component cut and update-expression assembly; end-to-end differential oracle on returned dictionaries",
+    text="Proof: for every dimension n, every real A, b, every state and every step size (also negative): if the model's assembly succeeds with a zero-pattern that is sound for exp(hA), the assembled update map satisfies flow_identity, flow_deriv (d/dh = A u + b at the updated state), flow_semigroup and is THE solution operator (analytic_solver_exact, via affine_flow_unique); blocks_sound: exponentiating each connected component on its own (not necessarily adjacent) index set and scattering gives exactly exp(hA); sum_mirror_unsound records the pre-repair defect. Tie: components and assembled expressions (incl. guarded error paths) compared with the real get_connected_component_indices / generate_propagator_solver on values at random rational points with propagator symbols as independent indeterminates; direct oracle differentiates the returned propagator strings.",
+    note=TB_COMMON + "SymPy's exp(Matrix) and simplify are contracts: entries are those of the true exponential and reported zeros are identically zero (checked end-to-end per case by the d/dh oracle at 40 digits). The get_sub_system extraction step is C02's subsystem_lossless plus C03's closure.",
+    ref="DESIGN.md 4 C01")
+
 NOT_YET = {}
 
 def main():
